@@ -158,15 +158,19 @@ func (i *Interpreter) ProcessPrefixExpression(exp *ast.PrefixExpression, opt *Ex
 		}
 	case "-":
 		switch t := v.(type) {
+		// Negate a copy: the operand may be the value object of a variable
 		case *value.Integer:
-			t.Value = -t.Value
-			return t, nil
+			neg := value.Unwrap[*value.Integer](t.Copy())
+			neg.Value = -neg.Value
+			return neg, nil
 		case *value.Float:
-			t.Value = -t.Value
-			return t, nil
+			neg := value.Unwrap[*value.Float](t.Copy())
+			neg.Value = -neg.Value
+			return neg, nil
 		case *value.RTime:
-			t.Value = -t.Value
-			return t, nil
+			neg := value.Unwrap[*value.RTime](t.Copy())
+			neg.Value = -neg.Value
+			return neg, nil
 		default:
 			return value.Null, errors.WithStack(
 				exception.Runtime(&exp.GetMeta().Token, `Unexpected "-" prefix operator for %v`, v),
